@@ -219,3 +219,36 @@ Theorem C01_tcp_stream_prefix_always : forall issA issB a0 b0 ms k,
   (exists rest, concat (TcpRcvP.reads_run a0 ea) ++ rest = TcpSndP.written b0 eb).
 Proof. exact TcpNetP.tcp_stream_prefix_always. Qed.
 Print Assumptions C01_tcp_stream_prefix_always.
+
+(* ---------------------------------------------------------------- from the handshake on
+   (Proofs/TcpEstP.v).  conn_init is not an assumption about an arbitrary state: it is what the
+   code's "transfer handshake state to TCP connection" step (Model/TcpEst.v transfer = newSender +
+   newReceiver applied to the handshake model's final state) produces for any two handshakes that
+   acknowledged each other's SYN.  The first snapshot of every lock-step trace is compared with
+   that function's result (Corr/TcpTrace.v init_corr). *)
+From NP Require Model.TcpHs Model.TcpEst Proofs.TcpEstP.
+
+Theorem C01_handshakes_establish_conn : forall hA hB rbA sbA mtuA rbB sbB mtuB,
+  is_u32 (TcpHs.h_iss hA) -> is_u32 (TcpHs.h_iss hB) ->
+  1 <= TcpHs.h_mss hA -> 1 <= TcpHs.h_mss hB ->
+  TcpHs.h_ackNum hA = u32 (TcpHs.h_iss hB + 1) ->
+  TcpHs.h_ackNum hB = u32 (TcpHs.h_iss hA + 1) ->
+  TcpNetP.conn_init (TcpHs.h_iss hA) (TcpHs.h_iss hB)
+                    (TcpEst.transfer hA rbA sbA mtuA) (TcpEst.transfer hB rbB sbB mtuB).
+Proof. exact TcpEstP.handshakes_establish_conn. Qed.
+Print Assumptions C01_handshakes_establish_conn.
+
+Theorem C01_stream_prefix_from_handshakes : forall hA hB rbA sbA mtuA rbB sbB mtuB ms,
+  is_u32 (TcpHs.h_iss hA) -> is_u32 (TcpHs.h_iss hB) ->
+  1 <= TcpHs.h_mss hA -> 1 <= TcpHs.h_mss hB ->
+  TcpHs.h_ackNum hA = u32 (TcpHs.h_iss hB + 1) ->
+  TcpHs.h_ackNum hB = u32 (TcpHs.h_iss hA + 1) ->
+  let a0 := TcpEst.transfer hA rbA sbA mtuA in
+  let b0 := TcpEst.transfer hB rbB sbB mtuB in
+  let ea := fst (TcpNetP.sys_run a0 b0 ms) in
+  let eb := snd (TcpNetP.sys_run a0 b0 ms) in
+  len (TcpSndP.written a0 ea) < 2^30 -> len (TcpSndP.written b0 eb) < 2^30 ->
+  (exists rest, concat (TcpRcvP.reads_run b0 eb) ++ rest = TcpSndP.written a0 ea) /\
+  (exists rest, concat (TcpRcvP.reads_run a0 ea) ++ rest = TcpSndP.written b0 eb).
+Proof. exact TcpEstP.stream_prefix_from_handshakes. Qed.
+Print Assumptions C01_stream_prefix_from_handshakes.
